@@ -12,6 +12,11 @@ chk("C01", "exploration",
     "trusts the reference codec (harness/internal/refcar, independent of go-car/go-cid/go-varint/CBOR libs) and stdlib hashes; honest blocks only",
     "runtime monitoring: differential oracle over produced bytes and reader event sequences (reference codec)", "DESIGN.md §6 C01")
 
+chk("C02", "exploration",
+    "Runtime monitor over mutated archives: EVERY proper prefix and every byte (one bit quick / all 8 bits thorough) of seeded small valid CARv1/CARv2 archives, plus random mutations, through 10 scanning readers; oracles: every returned block re-hashed with stdlib hashes, reference section table decides whether a cut/flip must be reported, returned blocks must be a prefix of the original sequence. Enumeration is total per archive, archives are sampled.",
+    "trusts refcar's section table and stdlib/x-crypto hashes; cuts on section boundaries and past a CARv2 payload are exempt as the property states; zero-length (fully truncated) digests verify vacuously as multihash defines",
+    "runtime monitoring: exhaustive truncation/bit-flip fault injection per archive with hash and clean-end oracles", "DESIGN.md §6 C02")
+
 NOT_YET = {}
 
 def main():
